@@ -17,6 +17,8 @@ THEOREMS = [
     ("C16_or_expansion", "or_expansion_statement"),
     ("C16_when_expansion", "forall X Y, macro_expands_to (s \"when\") [X; Y] (vec_to_list [vsym \"if\"; X; Y; nil_value])"),
     ("C16_not_expansion", "forall X, macro_expands_to (s \"not\") [X] (vec_to_list [vsym \"if\"; X; nil_value; t_value])"),
+    ("C16_catch_all_expansion", "forall B, macro_expands_within 3 (s \"catch-all\") [B] (vec_to_list [vsym \"test\"; t_value; vsym \"body\"; B])"),
+    ("C16_catch_expansion", "forall K B, macro_expands_within 5 (s \"catch\") [K; B] (catch_clause K B)"),
 ]
 
 def lst(xs):
@@ -66,6 +68,22 @@ def spec_cases(rng, maxlen):
     cases.append((f"(list (<= {a} {b}) (>= {a} {b}) (/= {a} {b}))", f"({tf(a <= b)} {tf(a >= b)} {tf(a != b)})"))
     return cases
 
+# signals of every shape through try/catch, and get-property-safe on every shape: (expression, printed value, kind or None)
+SIGNAL_SHAPES = [("5", "5", None), ("\"str\"", "\"str\"", None), ("'sym", "sym", None), ("'(1 2 3)", "(1 2 3)", None), ("(list \"m\" 2)", "(\"m\" 2)", None),
+                 ("'(kind)", "(kind)", None), ("'(kind my-kind)", "(kind my-kind)", "my-kind"), ("'(a 1 kind my-kind)", "(a 1 kind my-kind)", "my-kind"),
+                 ("'(kind other)", "(kind other)", "other"), ("'(1 . 2)", "(1 . 2)", None), ("'(a 1 b)", "(a 1 b)", None), ("'(a b c d)", "(a b c d)", None),
+                 ("'(1 kind)", "(1 kind)", None), ("'((kind my-kind))", "((kind my-kind))", None), ("%c", "%c", None)]
+
+def catch_cases():
+    """documented behaviour of try / catch / catch-all / get-property-safe on signals of every shape"""
+    cases = []
+    for expr, shown, kind in SIGNAL_SHAPES:
+        cases.append((f"(try (signal {expr}) (catch my-kind (lambda (e) 'mine)) (catch-all (lambda (e) (list 'caught e))))", "mine" if kind == "my-kind" else f"(caught {shown})"))
+        cases.append((f"(try (signal {expr}) (catch other (lambda (e) 'other)) (catch my-kind (lambda (e) (list 'mine e))))",
+                      "other" if kind == "other" else f"(mine {shown})" if kind == "my-kind" else None))
+        cases.append((f"(get-property-safe 'kind {expr})", kind if kind else "()"))
+    return cases
+
 def effect_cases():
     """control macros: each operand at most once, only when needed - observed through the output"""
     o = lambda tag, v: f"(block (output \"{tag}\") {v})"
@@ -92,6 +110,7 @@ def run(tier, seed):
     cases = []
     for i in range(12 if tier == "quick" else 300):
         cases += spec_cases(rng, 40 if tier == "quick" else 60)
+    cases += catch_cases()
     eff = effect_cases()
     misc = ["(map car '((1) (2)))", "(map (lambda (x & r) r) '(1 2))", "(map add '(1 2))", "(map (lambda (x) (car x)) '(1))", "(foldl add 0 '(1 a 2))", "(zip '(1 2 3) '(a))", "(length 5)",
             "(reverse \"abc\")", "(last nil)", "(init nil)", "(range 0)", "(apply list '(1 2))", "(apply (lambda (& xs) xs) '(1 2))", "(/ 100 5 2)", "(/ 5)", "(/)", "(-)", "(+)", "(*)",
